@@ -84,7 +84,7 @@ pub fn check_metadata(run: &mut Run) {
 fn run(ctx: &Ctx) -> Run {
     silence_panics();
     let threads = ctx.threads;
-    let exhaustive_to: i32 = if ctx.quick() { 4 } else { 5 };
+    let exhaustive_to: i32 = if ctx.quick() { 4 } else { 6 };
     let mut out = parallel(threads, |w, run| {
         let mut rng = ctx.rng("C04", w);
         let fr = Frame::new();
